@@ -115,6 +115,15 @@ theorem no_overalloc (t : Ty) (bs rest : Bytes) (v : Val) (h : dec t bs = .ok (v
   · rcases a3 with a3 | a3 <;> omega
   · intro hp; rcases a3 with a3 | a3 <;> omega
 
+/- FULL (allocation clause for *failing* decodes): "no byte string causes an allocation larger than the input justifies" is about
+hostile input, which mostly does not decode; `no_overalloc` speaks about successful decodes only.  The model is pure and
+builds nothing on a failing path, so a statement about allocation before a failure would need an allocation-tracking
+variant of `dec` mirroring where `reflect.MakeSlice` is called (after the declared length has been compared with the
+remaining input, tls.go) — not done.  What stands instead: `readPrefixed_len` (a body is handed to the element loop only
+after `declared length ≤ remaining input`), and on the implementation side the harness' hostile-input oracle
+(`c09HostileAlloc`: all-ones length prefixes with a few bytes behind them, bytes allocated during the call measured with
+runtime.MemStats, bound 256 KiB + 4 KiB·len(input)), which fires on "MakeSlice before the length test" (notes/C09.md). -/
+
 example : (Val.list [.struct [.num 5], .struct [.num 6]]).cells = 2 := by rfl
 example : exVal.payload = 2 ∧ exVal.cells = 2 := by decide
 
@@ -173,7 +182,9 @@ example : Info.check ⟨2, 1, 300, true⟩ 300 = true ∧ Info.check ⟨2, 1, 30
 
 /-! ## the tag grammar -/
 
-/-- `fieldTagToFieldInfo` is: split on `,`, fold the clauses from left to right, final checks. -/
+/-- `fieldTagToFieldInfo` is: split on `,`, fold the clauses from left to right, final checks.  (This is the definition of
+`parseTag` restated — `rfl`; the content is in `tagClause_*`, `tag_maxval` … `tag_empty` below, in `Gen.tagFinalChecks`
+(regenerated) and in the correspondence run, which sends every raw tag string through `parseTag`.) -/
 theorem tag_grammar (str : List Char) (name : String) :
     parseTag str name = tagFinish ((splitOn ',' str).foldl tagClause none) name := rfl
 
